@@ -959,11 +959,11 @@ def finish(c):
     if mode == "seq":
         for st in c["steps"]:
             # between two calls the caller uses its result: every reference-typed part of the target is overwritten
-            if st["mode"] != "scribble":
+            if st["mode"] not in ("scribble", "disturb"):
                 st.setdefault("mutate", True)
             finish(st)
         return c
-    if mode == "scribble":
+    if mode in ("scribble", "disturb"):
         return c
     fix_tags(c["type"])
     if mode == "parse":
@@ -1757,6 +1757,9 @@ def crosskind(rng, n):
                 if rng.random() < 0.3:
                     pairs.append((s0 + ".b", dn(lit)))
             steps.append(call(mode, fields, pairs, direct=rng.random() < 0.5))
+            if rng.random() < 0.5 and mode not in STRINGY:
+                # the same TYPE under unmarshallers with other option sets (fill-default, string values, opaque keys ...)
+                steps.append({"mode": "disturb", "type": St(*copy.deepcopy(fields)), "tag": tag_of(mode), "doc": dobj(pairs)})
         cases.append(finish({"mode": "seq", "procs1": k % 2 == 0, "steps": steps, "intent": "crosskind-type"}))
 
     # "is an absent struct value required?" depends on the tag key (F27: the answer was memoised per type only)
@@ -1786,6 +1789,9 @@ def crosskind(rng, n):
                 modes = {"json": rng.choice(["json", "httpx-json", "jsonmap"]), "form": rng.choice(["form", "httpx-form"]),
                          "path": "path", "header": "header", "key": "key"}
                 steps = [call(modes[t], outer, [], direct=True) for t in tags + tags[:1]]
+                if order == 2:
+                    steps.insert(1, {"mode": "disturb", "type": St(*copy.deepcopy(outer)), "tag": tags[0], "doc": dobj([])})
+                    steps.insert(0, {"mode": "disturb", "type": St(*copy.deepcopy(outer)), "tag": tags[-1], "doc": dobj([])})
                 cases.append(finish({"mode": "seq", "procs1": bool(si % 2), "steps": steps, "intent": "required-per-tag"}))
     return cases
 
@@ -2436,6 +2442,8 @@ def mutated_results(rng):
             if mode == "yaml" and not tame(doc):
                 mode = "json"
             steps.append({"mode": mode, "type": t, "doc": doc, "mutate": True})
+            if k % 3 == 0 and mode not in STRINGY:
+                steps.append({"mode": "disturb", "type": copy.deepcopy(t), "tag": tag_of(mode), "doc": copy.deepcopy(doc)})
         cases.append(finish({"mode": "seq", "procs1": k % 2 == 1, "steps": steps, "intent": "mutated-results"}))
     return cases
 
@@ -2977,6 +2985,8 @@ class C08(Property):
                         "steps": [wire(st, j) for j, st in enumerate(c["steps"])]}
             if c["mode"] == "scribble":
                 return {"id": i, "mode": "scribble", "type": St(), "ctype": c["tag"], "entries": c["entries"]}
+            if c["mode"] == "disturb":
+                return {"id": i, "mode": "disturb", "type": c["type"], "ctype": c["tag"], "doc": c.get("doc")}
             w = {"id": i, "mode": c["mode"], "type": c["type"], "doc": c.get("doc"), "raw": c.get("raw"),
                  "direct": bool(c.get("direct")), "pad": int(c.get("pad") or 0), "repeat": c.get("repeat"),
                  "validator": c.get("validator"), "ctype": c.get("ctype"), "static": c.get("static") or "",
@@ -3024,7 +3034,8 @@ class C08(Property):
     def coq_case(self, case, obs):
         if case["mode"] == "seq":
             # what the caller does with its own structs between two calls is not a call
-            return clist([self.coq_step(st, o) for st, o in zip(case["steps"], obs["steps"]) if st["mode"] != "scribble"])
+            return clist([self.coq_step(st, o) for st, o in zip(case["steps"], obs["steps"])
+                          if st["mode"] not in ("scribble", "disturb")])
         return clist([self.coq_step(case, obs)])
 
     def coq_step(self, case, obs):
